@@ -123,6 +123,67 @@ def replay(job):
     return {"viol": viol, "n": n, "keys": keys, "traces": 1}
 
 
+def orphan_under_schemes(ctx):
+    """the orphan clause under every time scheme: the chain 0-1-3 with node 2 attached to nothing is stepped with each
+    algorithm; it must stay regular (finite values, the orphan dof stays at rest) and the connected dofs must follow the
+    same chain without the orphan node (metamorphic: the orphan node is not part of the physics)."""
+    import warnings
+    from harness.matsimu import MatSimu, mesh_from_groups
+    from EasyFEA.FEM import ElemType
+    from EasyFEA import AlgoType
+
+    B = np.array([[1.0, -1.0], [-1.0, 1.0]])
+    Mloc = np.array([[2.0, 1.0], [1.0, 2.0]]) / 6.0
+
+    def build(with_orphan):
+        if with_orphan:
+            mesh = mesh_from_groups(np.array([[float(i), 0] for i in range(4)]), {ElemType.SEG2: [[0, 1], [1, 3]]})
+        else:
+            mesh = mesh_from_groups(np.array([[0.0, 0], [1.0, 0], [3.0, 0]]), {ElemType.SEG2: [[0, 1], [1, 2]]})
+        Ke = np.array([2.0 * B, 3.0 * B])
+        Me = np.array([1.0 * Mloc, 2.0 * Mloc])
+        return MatSimu(mesh, dof_n=1, local_fn=lambda simu, g: (Ke, 0.1 * Ke, Me, None))
+
+    algos = [a for a in AlgoType.Get_Hyperbolic_Types()] + [AlgoType.parabolic]
+    for algo in algos:
+        name = str(algo).split(".")[-1]
+        out = {}
+        bad = None
+        for with_orphan in (True, False):
+            sim = build(with_orphan)
+            last = 3 if with_orphan else 2
+            sim.add_dirichlet(np.array([0]), [0.0], ["x"])
+            sim.add_neumann(np.array([last]), [1.5], ["x"])
+            with contextlib.redirect_stdout(io.StringIO()):
+                if algo == AlgoType.parabolic:
+                    sim.Solver_Set_Parabolic_Algorithm(dt=0.2, alpha=0.5)
+                else:
+                    sim.Solver_Set_Hyperbolic_Algorithm(dt=0.2, algo=algo, **({"alpha": 0.1} if name in ("hht", "hht_newmark") else {}))
+            try:
+                with contextlib.redirect_stdout(io.StringIO()), warnings.catch_warnings():
+                    from scipy.sparse.linalg import MatrixRankWarning
+
+                    warnings.simplefilter("error", category=MatrixRankWarning)  # a singular-matrix warning is the violation
+                    for _ in range(3):
+                        sim.Solve()
+                        sim.Save_Iter()
+                pt = sim.problemType
+                out[with_orphan] = [np.asarray(sim._Get_u_n(pt)).copy(), np.asarray(sim._Get_v_n(pt)).copy()]
+            except Exception as ex:
+                bad = f"{type(ex).__name__}: {ex}"
+                break
+        ctx.count(2, distinct_key=("orphan-scheme", name))
+        if bad is not None:
+            ctx.violation(f"orphan-scheme/{name}", f"{name}: stepping the chain with an orphan node raises / warns {bad}", {"algo": name})
+            continue
+        (uo, vo), (ur, vr) = out[True], out[False]
+        if not (np.isfinite(uo).all() and np.isfinite(vo).all()):
+            ctx.violation(f"orphan-scheme/{name}", f"{name}: non-finite solution on the chain with an orphan node: u = {uo}", {"algo": name})
+        elif abs(uo[2]) > 1e-12 or np.abs(uo[[0, 1, 3]] - ur).max() > 1e-10 * max(1.0, np.abs(ur).max()) or np.abs(vo[[0, 1, 3]] - vr).max() > 1e-10 * max(1.0, np.abs(vr).max()):
+            ctx.violation(f"orphan-scheme/{name}", f"{name}: with an orphan node u = {uo}, v = {vo}; the same chain without it gives u = {ur}, v = {vr}", {"algo": name})
+    ctx.section("orphan_under_schemes", algorithms=[str(a).split(".")[-1] for a in algos], steps=3)
+
+
 def run(ctx):
     if ctx.replay:
         import json
@@ -138,6 +199,7 @@ def run(ctx):
     behs = res.prints.get("BEH", [])
     ctx.pmap(replay, list(enumerate(behs)))
     ctx.section("replay", behaviours=len(behs), modes=MODES, direct_tol=DIRECT_TOL, krylov_tol=KRYLOV_TOL)
+    orphan_under_schemes(ctx)
     for i in (0, len(behs) // 2):
         if behs:
             ctx.sample({"sys": behs[i]["sys"], "steps": behs[i]["steps"], "x": behs[i]["x"]})
